@@ -116,6 +116,39 @@ var checkC05Fields = register("C05/fields", func(f fieldCase2) string {
 	return c05Verdict(f, e.Score())
 })
 
+// reusedCase2: one object (decoded shape template) takes the fields of Prev, is scored, then
+// takes the fields of Cur and is scored again — the second score must be Cur's.
+type reusedCase2 struct {
+	Prev fieldCase2 `json:"first_assignment"`
+	Cur  fieldCase2 `json:"second_assignment"`
+}
+
+var checkC05Reused = register("C05/fields-reused", func(r reusedCase2) string {
+	if !inRange2(r.Prev) || !inRange2(r.Cur) || r.Prev.HasT != r.Cur.HasT || r.Prev.HasE != r.Cur.HasE {
+		return ""
+	}
+	e, err := build2(r.Prev)
+	if err != nil {
+		return fmt.Sprintf("shape template rejected: %v", err)
+	}
+	e.Score()
+	e.Severity()
+	bind.SetV2Base(e.Base, r.Cur.B)
+	if r.Cur.HasT {
+		bind.SetV2Temporal(e.Temporal, r.Cur.T)
+	}
+	if r.Cur.HasE {
+		bind.SetV2Env(e, r.Cur.E)
+	}
+	if m := c05Verdict(r.Cur, e.Score()); m != "" {
+		if _, _, known := splitKnown(m); known {
+			return m
+		}
+		return "after the same object was scored with other field values: " + m
+	}
+	return ""
+})
+
 var checkC05Decode = register("C05/decode", func(c scoreCase2) string {
 	ref, ok := spec.AcceptV2(c.Input, spec.Environmental)
 	if !ok {
@@ -140,7 +173,23 @@ func c05NonTrivial(f fieldCase2) bool {
 
 // c05Sweep enumerates (CR,IR,AR) x (CDP,TD) for one base vector and temporal setting on
 // a prepared object and compares with precomputed admissible sets.
+// c05Mismatch decides a fast-path mismatch: the fresh-object checker first; if a fresh object
+// is right, the reused object was wrong because of what it was asked before.
+func c05Mismatch(c *ctx, prev, cur fieldCase2, nviol *int) bool {
+	before := *nviol
+	known := c.rec.F.KnownHits["KF-1"] + c.rec.F.KnownHits["KF-2"]
+	if !evalEnum(c, "fields", cur.withText(), checkC05Fields, nviol) {
+		return false
+	}
+	if *nviol == before && c.rec.F.KnownHits["KF-1"]+c.rec.F.KnownHits["KF-2"] == known {
+		// neither a violation nor a known finding on a fresh object
+		return evalEnum(c, "fields-reused", reusedCase2{Prev: prev.withText(), Cur: cur.withText()}, checkC05Reused, nviol)
+	}
+	return true
+}
+
 func c05Sweep(c *ctx, e *m2.Environmental, b [6]int, hasT bool, t [3]int, cl map[string]int64, nviol *int) (evals, nt int64, ok bool) {
+	prev := fieldCase2{B: b, HasT: hasT, T: t, HasE: true}
 	bind.SetV2Base(e.Base, b)
 	if hasT {
 		bind.SetV2Temporal(e.Temporal, t)
@@ -171,10 +220,11 @@ func c05Sweep(c *ctx, e *m2.Environmental, b [6]int, hasT bool, t [3]int, cl map
 						adm := spec.V2EnvFromAdjusted(adj, hasT, t, cdp, td)
 						if !grid || !adm.Has(k) {
 							// slow path decides (known finding or violation) and produces the replay case
-							if !evalEnum(c, "fields", f.withText(), checkC05Fields, nviol) {
+							if !c05Mismatch(c, prev, f, nviol) {
 								return evals, nt, false
 							}
 						}
+						prev = f
 					}
 				}
 			}
@@ -186,7 +236,7 @@ func c05Sweep(c *ctx, e *m2.Environmental, b [6]int, hasT bool, t [3]int, cl map
 func TestC05(t *testing.T) {
 	c := begin(t, "C05")
 	defer c.end()
-	c.rec.F.Rule = "field sweep: objects decoded once per group shape, then every exported field stepped through all values — quick: all 729 base x 64 (CR,IR,AR) x 30 (CDP,TD) with the temporal group absent (1,399,680) plus the 73,629 vectors without environmental group; thorough: the complete 729 x 101 x 1,921 product (141,441,309 objects). decode: canonical vectors chosen by a seeded affine permutation of the 729 x 101 x 1,921 index space (distinct by construction), parsed by the environmental decoder. Non-trivial = environmental group present with a requirement L/H, or CDP not in {N,ND}, or TD not in {H,ND}."
+	c.rec.F.Rule = "field sweep: objects decoded once per group shape, then every exported field stepped through all values — quick: all 729 base x 64 (CR,IR,AR) x 30 (CDP,TD) with the temporal group absent (1,399,680) plus the 73,629 vectors without environmental group and 4,000,000 distinct seeded points of the product with both groups present; thorough: the complete 729 x 101 x 1,921 product (141,441,309 objects). decode: canonical vectors chosen by a seeded pseudo-random bijection of the 729 x 101 x 1,921 index space (distinct by construction), parsed by the environmental decoder. Non-trivial = environmental group present with a requirement L/H, or CDP not in {N,ND}, or TD not in {H,ND}."
 	c.rec.F.Assumptions = []string{"reference model: exact rational AdjustedImpact with min(10,.), base equation with f() on the adjusted impact, round-to-1-decimal sets through the temporal and environmental equations; a negative equation value also admits 0 (and its clamped propagation)", "known findings KF-1 / KF-2 (known_findings.json): a deviation is excused only on a listed (base | CR/IR/AR) input and only if the library value equals the exact propagation of the listed wrong tenth", "field assignment on a decoded object is equivalent to decoding the corresponding vector (checked by the decode stage on a sample and by C09)"}
 
 	nviol := 0
@@ -245,6 +295,37 @@ func TestC05(t *testing.T) {
 			nt += n2
 		}
 	}
+	// ---- quick tier: a seeded pseudo-random sample of the *full* product by field assignment (the
+	// thorough tier enumerates it completely above)
+	if !thorough() && ok && nviol == 0 {
+		const space = 729 * 100 * 1920 // temporal group present x environmental group present
+		key := mix(uint64(seed), 0xc05f)
+		total := uint64(4000000)
+		prev := fieldCase2{HasT: true, HasE: true}
+		for k := uint64(shard); k < total && nviol == 0; k += uint64(shards) {
+			n := permIndex(k, space, key)
+			ei := int(n % 1920)
+			n /= 1920
+			ti := int(n % 100)
+			n /= 100
+			f := fieldCase2{B: spec.V2BaseFromIndex(int(n)), HasT: true, T: [3]int{ti / 20, (ti / 4) % 5, ti % 4}, HasE: true, E: [5]int{ei / 320, (ei / 64) % 5, (ei / 16) % 4, (ei / 4) % 4, ei % 4}}
+			bind.SetV2Base(eT.Base, f.B)
+			bind.SetV2Temporal(eT.Temporal, f.T)
+			bind.SetV2Env(eT, f.E)
+			score := eT.Score()
+			evals++
+			if c05NonTrivial(f) {
+				nt++
+			}
+			cl["field-sample(temporal+environmental present)"]++
+			kk, grid := tenths(score)
+			adj, _, _ := spec.V2AdjustedBase(f.B, f.E[2], f.E[3], f.E[4])
+			if !grid || !spec.V2EnvFromAdjusted(adj, true, f.T, f.E[0], f.E[1]).Has(kk) {
+				c05Mismatch(c, prev, f, &nviol)
+			}
+			prev = f
+		}
+	}
 	c.rec.Bulk("field-sweep", evals, nt, cl)
 	if shard == 0 {
 		if thorough() {
@@ -254,16 +335,15 @@ func TestC05(t *testing.T) {
 		}
 	}
 
-	// ---- decode stage: seeded affine sample of the full product, through Decode -----------
+	// ---- decode stage: seeded pseudo-random sample of the full product, through Decode -----------
 	{
 		const space = 729 * 101 * 1921
 		total := uint64(pick(200000, 4000000))
-		const a = 1000003 // prime; the index space factors into 3, 17, 101, 113
-		bb := mix(uint64(seed), 0xc05) % space
+		key := mix(uint64(seed), 0xc05)
 		var ev2, nt2 int64
 		cl2 := map[string]int64{}
 		for k := uint64(shard); k < total && nviol == 0; k += uint64(shards) {
-			n := (a*k + bb) % space
+			n := permIndex(k, space, key)
 			var f fieldCase2
 			ei := int(n % 1921)
 			n /= 1921
